@@ -40,6 +40,15 @@ type tyNonterm struct {
 	Alts  []int      `json:"alts"` // iface: alternatives (node nonterminals)
 	Op    int        `json:"op"`   // iface: binary operator token (0: none)
 	Named bool       `json:"named"`
+	Cyc   [][]tyCycAlt `json:"cyc"` // cyc2: per member its alternatives
+	Uni   []int      `json:"uni"`  // union: tokens of the helper's alternatives (same field name, different node types), then the extra one
+}
+
+// alternative of a cycle member: tok (optionally reported as an inline node) followed by member Next (-1: nothing)
+type tyCycAlt struct {
+	Tok  int  `json:"tok"`
+	Node bool `json:"node"`
+	Next int  `json:"next"`
 }
 
 type tyField struct {
@@ -108,7 +117,7 @@ func tyChar(t int) string {
 }
 
 func (c *tyCase) ntName(i int) string   { return fmt.Sprintf("n%d", i) }
-func (c *tyCase) typeName(i int) string { return fmt.Sprintf("%s%d", map[string]string{"leaf": "Leaf", "struct": "Struct", "iface": "Cat", "cyc": "Struct"}[c.Nts[i].Kind], i) }
+func (c *tyCase) typeName(i int) string { return fmt.Sprintf("%s%d", map[string]string{"leaf": "Leaf", "struct": "Struct", "iface": "Cat", "cyc": "Struct", "cyc2": "Struct", "union": "Struct"}[c.Nts[i].Kind], i) }
 
 func (c *tyCase) render(ntok int) string {
 	var b strings.Builder
@@ -125,13 +134,16 @@ func (c *tyCase) render(ntok int) string {
 	b.WriteString("\nroot -> Root:\n    top+ ;\n\n%interface Top;\n\ntop -> Top:\n")
 	first := true
 	for i, nt := range c.Nts {
-		if nt.Kind == "struct" || nt.Kind == "cyc" {
+		if nt.Kind == "struct" || nt.Kind == "cyc" || nt.Kind == "cyc2" || nt.Kind == "union" {
 			sep := "  | "
 			if first {
 				sep = "    "
 				first = false
 			}
 			fmt.Fprintf(&b, "%s%s\n", sep, c.ntName(i))
+			if nt.Kind == "union" {
+				fmt.Fprintf(&b, "  | %s_q\n", c.ntName(i))
+			}
 		}
 	}
 	b.WriteString(";\n\n")
@@ -167,6 +179,43 @@ func (c *tyCase) render(ntok int) string {
 				fmt.Fprintf(&b, "%s:\n    %s %s\n;\n\n", name(k), name(k+1), node(k))
 			}
 			fmt.Fprintf(&b, "%s:\n    %s %s\n  | %s\n;\n\n", name(m-1), name(0), node(m-1), node(m-1))
+		case "cyc2":
+			// random cycle structure through node-less nonterminals (several back edges, any order of alternatives)
+			name := func(k int) string { return fmt.Sprintf("%s_%d", c.ntName(i), k) }
+			fmt.Fprintf(&b, "%s -> %s:\n    %s %s %s ;\n\n", c.ntName(i), c.typeName(i), tyTok(nt.Tok), name(0), tyTok(nt.End))
+			for k, alts := range nt.Cyc {
+				fmt.Fprintf(&b, "%s:\n", name(k))
+				for j, a := range alts {
+					sep := "  | "
+					if j == 0 {
+						sep = "    "
+					}
+					t := tyTok(a.Tok)
+					if a.Node {
+						t = fmt.Sprintf("(%s -> Cy%d_%d)", t, i, a.Tok)
+					}
+					if a.Next >= 0 {
+						t += " " + name(a.Next)
+					}
+					fmt.Fprintf(&b, "%s%s\n", sep, t)
+				}
+				b.WriteString(";\n\n")
+			}
+		case "union":
+			// one field name over alternatives with different node types, in a node-less helper shared by two node types
+			h := fmt.Sprintf("%s_u", c.ntName(i))
+			nU := len(nt.Uni) - 1
+			fmt.Fprintf(&b, "%s:\n", h)
+			for j := 0; j < nU; j++ {
+				sep := "  | "
+				if j == 0 {
+					sep = "    "
+				}
+				fmt.Fprintf(&b, "%sx=(%s -> U%d_%d)\n", sep, tyTok(nt.Uni[j]), i, nt.Uni[j])
+			}
+			b.WriteString(";\n\n")
+			fmt.Fprintf(&b, "%s -> %s:\n    %s %s %s\n  | %s x=(%s -> Ka%d) %s\n;\n\n", c.ntName(i), c.typeName(i), tyTok(nt.Tok), h, tyTok(nt.End), tyTok(nt.Tok), tyTok(nt.Uni[nU]), i, tyTok(nt.End))
+			fmt.Fprintf(&b, "%s_q -> Qq%d:\n    %s %s %s ;\n\n", c.ntName(i), i, tyTok(nt.Op-1), h, tyTok(nt.End))
 		case "struct":
 			fmt.Fprintf(&b, "%s -> %s:\n    %s", c.ntName(i), c.typeName(i), tyTok(nt.Tok))
 			for _, p := range nt.Parts {
@@ -241,6 +290,64 @@ func (c *tyCase) sample(r *rand.Rand, i, depth int, out *[]int) {
 		}
 		member(0, 3)
 		*out = append(*out, nt.End)
+	case "cyc2":
+		*out = append(*out, nt.Tok)
+		// distance to termination per member
+		m := len(nt.Cyc)
+		dist := make([]int, m)
+		for k := range dist {
+			dist[k] = 1 << 20
+		}
+		for it := 0; it < m+1; it++ {
+			for k, alts := range nt.Cyc {
+				for _, a := range alts {
+					d := 1
+					if a.Next >= 0 {
+						d = 1 + dist[a.Next]
+					}
+					if d < dist[k] {
+						dist[k] = d
+					}
+				}
+			}
+		}
+		k, budget := 0, 4+r.Intn(8)
+		for steps := 0; steps < 64; steps++ {
+			alts := nt.Cyc[k]
+			var a tyCycAlt
+			if budget > 0 {
+				a = alts[r.Intn(len(alts))]
+			} else { // head for termination
+				best := alts[0]
+				for _, x := range alts {
+					dx, db := 1, 1
+					if x.Next >= 0 {
+						dx = 1 + dist[x.Next]
+					}
+					if best.Next >= 0 {
+						db = 1 + dist[best.Next]
+					}
+					if dx < db {
+						best = x
+					}
+				}
+				a = best
+			}
+			budget--
+			*out = append(*out, a.Tok)
+			if a.Next < 0 {
+				break
+			}
+			k = a.Next
+		}
+		*out = append(*out, nt.End)
+	case "union":
+		nU := len(nt.Uni) - 1
+		if r.Intn(2) == 0 {
+			*out = append(*out, nt.Tok, nt.Uni[r.Intn(nU)], nt.End)
+		} else {
+			*out = append(*out, nt.Tok, nt.Uni[nU], nt.End)
+		}
 	case "struct":
 		*out = append(*out, nt.Tok)
 		for _, p := range nt.Parts {
@@ -506,6 +613,38 @@ func c21Gen(args []string) error {
 				c.Nts = append(c.Nts, nt)
 				continue
 			}
+			if r.Intn(6) == 0 { // random cycles through node-less nonterminals
+				nt.Kind = "cyc2"
+				m := 3 + r.Intn(3)
+				nt.Cyc = make([][]tyCycAlt, m)
+				for k := 0; k < m; k++ {
+					nt.Cyc[k] = append(nt.Cyc[k], tyCycAlt{Tok: tok(), Node: r.Intn(2) == 0, Next: (k + 1) % m})
+					if r.Intn(2) == 0 {
+						nx := r.Intn(m+1) - 1
+						nt.Cyc[k] = append(nt.Cyc[k], tyCycAlt{Tok: tok(), Node: r.Intn(2) == 0, Next: nx})
+					}
+					if r.Intn(2) == 0 {
+						r.Shuffle(len(nt.Cyc[k]), func(a, b int) { nt.Cyc[k][a], nt.Cyc[k][b] = nt.Cyc[k][b], nt.Cyc[k][a] })
+					}
+				}
+				// somebody must terminate
+				kt := r.Intn(m)
+				nt.Cyc[kt] = append(nt.Cyc[kt], tyCycAlt{Tok: tok(), Node: true, Next: -1})
+				nt.End = tok()
+				c.Nts = append(c.Nts, nt)
+				continue
+			}
+			if r.Intn(8) == 0 { // one field over differently typed alternatives in a shared node-less helper
+				nt.Kind = "union"
+				for k := 0; k < 2+r.Intn(6); k++ {
+					nt.Uni = append(nt.Uni, tok())
+				}
+				nt.Uni = append(nt.Uni, tok()) // the extra alternative of the first node type
+				nt.Op = tok() + 1
+				nt.End = tok()
+				c.Nts = append(c.Nts, nt)
+				continue
+			}
 			if r.Intn(4) == 0 { // groups of same-typed fields, the last field of a group may be optional
 				fi := 0
 				for gidx := 0; gidx < 1+r.Intn(2); gidx++ {
@@ -569,6 +708,12 @@ func c21Gen(args []string) error {
 			if c.Nts[i].Alts == nil {
 				c.Nts[i].Alts = []int{}
 			}
+			if c.Nts[i].Cyc == nil {
+				c.Nts[i].Cyc = [][]tyCycAlt{}
+			}
+			if c.Nts[i].Uni == nil {
+				c.Nts[i].Uni = []int{}
+			}
 		}
 		if ntok > 50 {
 			id--
@@ -578,14 +723,19 @@ func c21Gen(args []string) error {
 		c.TM = c.render(ntok)
 		var structs []int
 		for i, nt := range c.Nts {
-			if nt.Kind == "struct" || nt.Kind == "cyc" {
+			if nt.Kind == "struct" || nt.Kind == "cyc" || nt.Kind == "cyc2" || nt.Kind == "union" {
 				structs = append(structs, i)
 			}
 		}
 		for k := 0; k < 20; k++ {
 			var toks []int
 			for it := 0; it < 1+r.Intn(3); it++ {
-				c.sample(r, structs[r.Intn(len(structs))], 3, &toks)
+				si := structs[r.Intn(len(structs))]
+				if u := c.Nts[si]; u.Kind == "union" && r.Intn(3) == 0 { // the second node type over the shared helper
+					toks = append(toks, u.Op-1, u.Uni[r.Intn(len(u.Uni)-1)], u.End)
+					continue
+				}
+				c.sample(r, si, 3, &toks)
 			}
 			var sb strings.Builder
 			for _, t := range toks {
